@@ -4,8 +4,9 @@
    Table:  sframe cols rows  (Proofs/WrapperRefineFrame.v) -- a frame of Model/Frame.v with string
    labels.  Well-formedness (wf_table): labels distinct, every row has one cell per column, and for every
    column a list of value ids (Model/Profiler.v: column = list (option Z)) that ABSTRACTS its cells
-   (ProfilerRefineUniq.abstracts: ids equal exactly where the cells are equal under pandas' hashtable
-   equality, None exactly where pd.isnull holds -- this excludes a column that holds both None and NaN).
+   (ProfilerRefineUniq.abstracts: id None exactly where pd.isnull holds, and on the present cells ids
+   equal exactly where the cells are equal under pandas' hashtable equality; a column may hold None AND
+   NaN, the source counts the missing value once: len(S.dropna().unique()), + 1 if a cell is missing).
    Attribute list: None or a list of strings (py_opt_strs).  Row count < 2^53 (float(n) <> 0.0).
 
      profile_table_for_join_rows_explicit        the result, spelled out
@@ -127,19 +128,22 @@ Ltac loop_tail sf cols rows ids n L Hsh Habs HinL HzL :=
       fold (col_cells cols rows a);
       pose proof (Habs a (HinL a Ha)) as Hab;
       pose proof (HzL a Ha) as Hz;
-      change (series_nunique (PList (col_cells cols rows a)))
-        with (PInt (Z.of_nat (nunique (col_cells cols rows a))));
-      rewrite (nunique_abstracts _ _ Hab);
-      rewrite (bindx_ok (PInt _)) by reflexivity; cbv beta;
       rewrite isnull_sum_eval, (nmissing_abstracts _ _ Hab);
       rewrite (bindx_ok (PInt _)) by reflexivity; cbv beta;
+      rewrite nunique_present_eval;
+      rewrite (bindx_ok (PInt _)) by reflexivity; cbv beta;
+      rewrite py_gt_int_val;
+      match goal with |- loop_inv _ _ (bindx (PBool ?b) ?fl ?k) =>
+        rewrite (bindx_ok (PBool b) fl k) by reflexivity end; cbv beta;
+      rewrite count_missing_once_eval, (nunique_present_abstracts _ _ Hab); cbv beta iota;
+      rewrite (bindx_ok PNone) by reflexivity; cbv beta;
       rewrite !(pct_eval _ n Hz);
       rewrite (bindx_ok (PFloat _)) by reflexivity; cbv beta;
       rewrite (bindx_ok (PFloat _)) by reflexivity; cbv beta;
       rewrite !format_statistic_eval;
       rewrite (bindx_ok (PStr _)) by reflexivity; cbv beta;
       rewrite (bindx_ok (PStr _)) by reflexivity; cbv beta;
-      rewrite py_gt_int_val, !py_eq_int_val, py_and_bools, join3_eval;
+      rewrite !py_eq_int_val, py_and_bools, join3_eval;
       set (u := n_unique (ids a)); set (m := n_missing (ids a));
       assert (E : map (out_record sf) (acc ++ [(a, profile_column n (ids a))])%list
                   = (map (out_record sf) acc ++
@@ -173,11 +177,15 @@ Ltac loop_zero cols rows a0 Hsh Ha0 :=
   cbv beta iota delta [is_exc fst];
   rewrite (bindx_ok (PStr a0)) by reflexivity; cbv beta;
   rewrite (frame_col_sframe cols rows a0 Hsh Ha0);
-  match goal with |- context [series_nunique (PList ?c)] =>
-    change (series_nunique (PList c)) with (PInt (Z.of_nat (nunique c))) end;
-  rewrite (bindx_ok (PInt _)) by reflexivity; cbv beta;
   rewrite isnull_sum_eval;
   rewrite (bindx_ok (PInt _)) by reflexivity; cbv beta;
+  rewrite nunique_present_eval;
+  rewrite (bindx_ok (PInt _)) by reflexivity; cbv beta;
+  rewrite py_gt_int_val;
+  match goal with |- context [bindx (PBool ?b) ?fl ?k] =>
+    rewrite (bindx_ok (PBool b) fl k) by reflexivity end; cbv beta;
+  rewrite count_missing_once_eval; cbv beta iota;
+  rewrite (bindx_ok PNone) by reflexivity; cbv beta;
   rewrite pct_zero_rows;
   unfold ZeroDivisionError; rewrite bindx_exc; cbv beta;    (* never unfold every bindx: 8^depth *)
   rewrite fold_raised by reflexivity; reflexivity.
